@@ -45,7 +45,7 @@ def damaged_tree(tree):
     return dmg
 
 
-def judge_cut(c, rc, out, out0, bounds, order, dmg, droot):
+def judge_cut(c, rc, out, out0, bounds, order, dmg, droot, tree=None):
     """the property on one real run with the ecc file cut at offset c (out0 = outputs with the complete ecc file)"""
     if rc.startswith("exception"):
         return "correction did not terminate normally on the prefix: %s" % rc
@@ -57,6 +57,10 @@ def judge_cut(c, rc, out, out0, bounds, order, dmg, droot):
     for p, v in out.items():
         if len(v) != len(dmg.get(p, b"")):
             bad = "output %s has a different length than its input (file damaged on account of the incomplete entry)" % p
+    if tree is not None:
+        for p, v in out.items():
+            if dmg.get(p) == tree.get(p) and v != tree.get(p):
+                bad = "the undamaged file %s was written back altered on account of the incomplete ecc file" % p
     if eu.read_tree(droot) != dmg:
         bad = "an input file was modified"
     return bad
@@ -115,7 +119,7 @@ def run(oc, tier, seed, model_available, escalate):
             open(e2, "wb").write(data[:c])
             rc, st, out, txt = eu.correct(P, droot, e2, os.path.join(d, "out"))
             oc.oracle_cases += 1
-            bad = judge_cut(c, rc, out, out0, bounds, order, dmg, droot)
+            bad = judge_cut(c, rc, out, out0, bounds, order, dmg, droot, tree)
             if bad:
                 oc.violations.append({"input": {"params": P.describe(), "tree": {k: v.hex() for k, v in tree.items()}, "cut": c, "ecc_len": len(data),
                                                 "entry_bounds": bounds}, "impl": {"exit": rc, "stats": st}, "what": bad})
@@ -200,7 +204,7 @@ def replay(payload):
     e2 = os.path.join(d, "cut.txt")
     open(e2, "wb").write(data[:c])
     rc, st, out, _ = eu.correct(P, droot, e2, os.path.join(d, "out"))
-    bad = judge_cut(c, rc, out, out0, bounds, order, dmg, droot)
+    bad = judge_cut(c, rc, out, out0, bounds, order, dmg, droot, tree)
     common.say("params:", P.describe())
     common.say("ecc file of %d bytes cut at %d: exit %s, stats %s (complete file: exit %s, stats %s)" % (len(data), c, rc, st, rc0, st0))
     common.say("FAILS: %s" % bad if bad else "the property holds on this input now")
